@@ -35,6 +35,8 @@ func checkC05(p *Prog, r *Report) {
 	rulePoolOwn(p, r)
 	rulePoolNew(p, r)
 	rulePoolNil(p, r)
+	ruleLogCtx(p, r)
+	r.Floor("LOGCTX", 1)
 	r.Floor("POOL-NIL", 6)
 	r.Floor("POOL-OWN", 6)
 	r.Floor("INV", 100)
